@@ -17,6 +17,7 @@ THEOREMS = [
     'Pfst.C02.root_identity', 'Pfst.C02.touch_preserves_links', 'Pfst.C02.linkInv_mem',
     'Pfst.C02.offset_touches_changed', 'Pfst.C02.offset_cache_coherent', 'Pfst.C02.view_heal', 'Pfst.C02.view_len',
     'Pfst.C02.view_ops_valid', 'Pfst.C02.slicePut_flushes_children', 'Pfst.C02.unpar_flushes_self',
+    'Pfst.C02.renumber_positions',
 ]
 RULE = ('(a) link store: _set_ast / _set_field / _unmake_fst_tree / _make_fst_tree / _touch / _touchall called '
         'directly on real nodes of corpus programs (fresh ASTs, ASTs carrying FSTs of another tree, valid_fst and '
@@ -27,7 +28,7 @@ RULE = ('(a) link store: _set_ast / _set_field / _unmake_fst_tree / _make_fst_tr
         '(_start, _stop) after every editing method vs the Lean model; (e) put_line_comment / put_src(action=None) / slice puts to Call, ClassDef, MatchClass / unpar() that overwrites '
         'parentheses in place, on real nodes with sentinel cache entries: every cache the model of the call site '
         '(_touchall(parents[,self]) resp. touch of every direct child) '
-        'clears must be cleared (superset allowed); (d) random edit histories (replace / remove / '
+        'clears must be cleared (superset allowed); (f) deterministic product run first: every virtual field (arguments._all with every marker shape, Call._args, ClassDef._bases, Dict._all, MatchMapping._all, MatchClass._attrs, Compare._all) x every span x cut / delete / copy / view cut / view delete, all queries on all nodes before, full check after, and the post-state must be a fixed point of the Lean renumbering loop; (d) random edit histories (replace / remove / '
         'insert / append / prepend / put_slice / put_src offset / put_src(action=None) on comment- and whitespace-only line tails / '
         'put_line_comment (add, replace shorter/longer/multi-byte, delete, full=True; statements ending 0..n enclosing blocks) / '
         'put_docstr (add, replace, delete, multi-line) / par / unpar (meaning-preserving calls only) / edits through windowed views; norm=True) on corpus '
@@ -734,6 +735,10 @@ def _hist_worker(arg):
 
 def _histories(ctx, progs, nsteps, judge=True):
     res = pmap(_hist_worker, [(p, ctx.rng.randrange(1 << 30), nsteps, 'all' if ctx.quick else 'last') for p in progs])
+    _collect(ctx, res, judge)
+
+
+def _collect(ctx, res, judge=True):
     graphs = []
     n_ops = 0
     for r in res:
@@ -773,8 +778,64 @@ def _histories(ctx, progs, nsteps, judge=True):
             ctx.brk('correspondence', name, f'{bad}/{len(cases)} graphs: Lean and Python evaluation of LinkInv disagree')
 
 
+def _virt_worker(arg):
+    src, steps = arg
+    r = L.run_history(src, steps=steps, with_graphs=True, stop_on_fail=False)
+    if not r['fails']:
+        r['steps'] = [{'op': st['op']} for st in r['steps']]
+    # renumbering correspondence: after the operation the implementation's pfields of the container's children must
+    # be a fixed point of the model's renumbering loop
+    r['renumber'] = None
+    if r['n_ops']:
+        try:
+            root = _mk(src)
+            op = steps[0]['op']
+            L.apply_op(root, op)
+            a = L.at_path(root.a, tuple((n, i) for n, i in op['path']))
+            ids = L.Ids()
+            st = L.dump_state(ids, root)
+            r['renumber'] = {'f': 'C02.op', 'state': {'tree': st['tree'], 'rootf': st['rootf'], 'store': st['store']},
+                             'op': {'name': 'renumber', 'fst': ids.fid(a.f)}}
+        except Exception:
+            pass
+    return r
+
+
+def virt_links(ctx):
+    """deterministic product first: every virtual field shape x every span x cut / delete / copy / through a view"""
+    prod = L.virt_product()
+    res = pmap(_virt_worker, prod)
+    _collect(ctx, res, judge=True)
+    name = 'pfield renumbering after span removal vs Pfst.Links.renumberKids (fixed point)'
+    cases = [r['renumber'] for r in res if r.get('renumber')]
+    try:
+        outs = ctx.lean(cases)
+    except Exception as e:
+        ctx.brk('correspondence', name, f'driver error: {e}')
+        return
+    bad = 0
+    first = None
+    for c, mo in zip(cases, outs):
+        ctx.corr_cases += 1
+        m = mo.get('out', mo)
+        n_old = c['state']['store']['next']
+        ok = isinstance(m, dict) and 'store' in m and \
+            L.canon_state(m['tree'], m['store'], n_old) == L.canon_state(c['state']['tree'], c['state']['store'], n_old)
+        if not ok:
+            bad += 1
+            first = first or {'op': c['op'], 'model_err': None if isinstance(m, dict) and 'store' in m else m}
+            ctx.hints.append((name, c))
+    _acc(ctx, name, len(cases))
+    ctx.notes['virt_product_cases'] = len(prod)
+    if bad:
+        ctx.brk('correspondence', name, f'{bad}/{len(cases)} states after a virtual-field span operation are not a fixed '
+                                        f'point of the renumbering loop (a remaining child records a stale index); first: '
+                                        + json.dumps(first, default=str)[:800])
+
+
 def sweep(ctx):
     q = ctx.quick
+    virt_links(ctx)
     progs = _programs(ctx, 170 if q else 2000, 6 if q else 100, extra=4 if q else 30)
     _histories(ctx, progs, 5 if q else 10)
 
